@@ -796,6 +796,13 @@ impl<T: El> MapWorld<T> {
             }
             4 => all.into_iter().filter(|k| k % 2 == 0).collect(),
             5 => all.into_iter().filter(|k| k % 3 == 0).collect(),
+            10 => {
+                // everything except the old-table elements other than the last one the cursor reaches
+                let d = self.dump();
+                let old = self.old_ids(&d);
+                let last = self.classes().old_last;
+                all.into_iter().filter(|k| !old.contains(k) || Some(*k) == last).collect()
+            }
             6 => all.into_iter().filter(|&q| q == Self::lk(key)).collect(),
             7 => all.into_iter().filter(|&q| q != Self::lk(key)).collect(),
             8 | 9 => {
